@@ -5216,7 +5216,8 @@ class Method(Instruction):
         return 1
 
     def __str__(self) -> str:
-        return f"method {self.method_signature}"
+        # the signature is a string literal: print it with its quotes so that the line parses back
+        return f'method "{self.method_signature}"'
 
 
 class Replace2(Instruction):
